@@ -555,7 +555,7 @@ func TestVerifC14(t *testing.T) {
 	logger.Level = logrus.PanicLevel
 	ctx := ctxlog.Context(context.Background(), logger)
 
-	n := run.N(30000, 600000)
+	n := run.N(48000, 900000)
 	run.Cases("sched", n, func(i int, rng *verifkit.Rand) {
 		sc := c14Gen(rng)
 		run.Input(sc, false)
